@@ -123,8 +123,11 @@ func replayPrinterLine(rep *lib.Report, prop string, ln *printerLine, raw []byte
 	}
 	judgePrinter(rep, prop, c, ln, &res, raw)
 	rep.Nontrivial(string(exp))
+	smp := map[string]interface{}{"case": desc(), "real_output": string(res.Out), "model_output": string(exp)}
 	if len(ln.Rt) > 1 {
-		rep.Sample(map[string]interface{}{"case": desc(), "real_output": string(res.Out), "model_output": string(exp)})
+		rep.Sample(smp)
+	} else {
+		rep.SampleIfFew(smp)
 	}
 }
 
